@@ -477,6 +477,14 @@ class InputStream(BodyStream):
             if got != b"" or sim.calls:
                 vio("unterminated-input-read-without-length", f"no usable length and input not terminated, yet {len(got)} bytes were read ({sim.calls} calls on the input)")
             out.probe("empty_fallback")
+            # the application closes what it was given; the next request of the same kind gets a usable stream again
+            try:
+                stream.close()
+                again = self.open_stream(dict(environ), safe, mcl)
+                if again.read() != b"":
+                    vio("unterminated-input-read-without-length/second-request", "the second request's fallback stream is not empty")
+            except Exception as e:  # noqa: BLE001
+                vio(f"unexpected-exception/{type(e).__name__}/empty-fallback-second-request", f"after the first request closed its empty stream: {type(e).__name__}: {e}")
             return self._done(out, tr, sim)
         _, limit, is_max = expect
         if stream is sim:
